@@ -19,7 +19,7 @@ def hashseed_for(obj):
     """PYTHONHASHSEED for a child interpreter: a pure function of the case (so runs repeat), spread over several values so
     that set / dict-of-str iteration order in the library is not always the one of seed 0"""
     import zlib
-    return str(zlib.crc32(json.dumps(obj, sort_keys=True, default=str).encode()) % 13)
+    return str(zlib.crc32(jdumps(obj, sort_keys=True, default=str).encode()) % 13)
 
 
 class HarnessError(Exception):
@@ -32,9 +32,39 @@ class Violation(Exception):
         self.case, self.msg, self.key = case, msg, key
 
 
+def jdumps(obj, **kw):
+    """json.dumps; integers of more than 4300 digits (CPython refuses to print them by default) are written with the limit
+    lifted for this call only - the interpreter the library runs in keeps its default"""
+    try:
+        return json.dumps(obj, **kw)
+    except ValueError as e:
+        if "integer string conversion" not in str(e):
+            raise
+        old = sys.get_int_max_str_digits()
+        sys.set_int_max_str_digits(0)
+        try:
+            return json.dumps(obj, **kw)
+        finally:
+            sys.set_int_max_str_digits(old)
+
+
+def jloads(text):
+    try:
+        return json.loads(text)
+    except ValueError as e:
+        if "integer string conversion" not in str(e):
+            raise
+        old = sys.get_int_max_str_digits()
+        sys.set_int_max_str_digits(0)
+        try:
+            return json.loads(text)
+        finally:
+            sys.set_int_max_str_digits(old)
+
+
 def jdigest(obj):
     import hashlib
-    return hashlib.sha1(json.dumps(obj, sort_keys=True, default=str).encode()).hexdigest()[:12]
+    return hashlib.sha1(jdumps(obj, sort_keys=True, default=str).encode()).hexdigest()[:12]
 
 
 class Stats:
@@ -112,7 +142,7 @@ def load_known(pid):
 def _replay_one(modname, path):
     import importlib
     st = Stats()
-    doc = json.load(open(path))
+    doc = jloads(open(path).read())
     case = doc.get("case", doc)
     msg = importlib.import_module(modname).replay(case)
     st.evaluations = 1
@@ -333,13 +363,13 @@ def run_shards_optimised(modname, fn, kwargs_list):
     procs = []
     for kw in kwargs_list:
         code = ("import sys, json; from harness import core; "
-                "r = core._shard_entry((%r, %r, json.loads(sys.stdin.read()))); print('\\nSHARD-RESULT ' + json.dumps(r))" % (modname, fn))
+                "r = core._shard_entry((%r, %r, core.jloads(sys.stdin.read()))); print('\\nSHARD-RESULT ' + core.jdumps(r))" % (modname, fn))
         envv = dict(os.environ)
         envv["PYTHONPATH"] = os.pathsep.join([ROOT, os.environ.get("VERIF_REPO", "/repo")] + [p for p in os.environ.get("PYTHONPATH", "").split(os.pathsep) if p]) + COVPATH
         envv["PYTHONHASHSEED"] = str(1 + int(hashseed_for(kw)))       # these shards double as the "another hash seed" configuration
         procs.append(subprocess.Popen([sys.executable, "-O", "-c", code], stdin=subprocess.PIPE, stdout=subprocess.PIPE,
                                       stderr=subprocess.PIPE, text=True, cwd=ROOT, env=envv))
-        procs[-1].stdin.write(json.dumps(kw))
+        procs[-1].stdin.write(jdumps(kw))
         procs[-1].stdin.close()
     for pr in procs:
         out = pr.stdout.read()
@@ -348,7 +378,7 @@ def run_shards_optimised(modname, fn, kwargs_list):
         res = None
         for ln in out.splitlines():
             if ln.startswith("SHARD-RESULT "):
-                res = json.loads(ln[len("SHARD-RESULT "):])
+                res = jloads(ln[len("SHARD-RESULT "):])
         if res is None:
             raise HarnessError("optimised-interpreter shard %s.%s produced no result: %s" % (modname, fn, err[-400:]))
         status, payload = res
@@ -368,11 +398,11 @@ def compact_samples(samples, each=4000, total=60000):
     characters is represented by its beginning, its size and its digest (replays and regressions hold complete cases).
     The whole list stays below `total` characters so that the evidence file remains a small, valid document."""
     out, used = [], 0
-    for c in sorted(samples, key=lambda c: len(json.dumps(c, default=str))):
-        txt = json.dumps(c, default=str)
+    for c in sorted(samples, key=lambda c: len(jdumps(c, default=str))):
+        txt = jdumps(c, default=str)
         if len(txt) > each:
             c = {"sample_too_long_to_print": True, "json_characters": len(txt), "digest": jdigest(c), "begins": txt[:each // 2]}
-            txt = json.dumps(c)
+            txt = jdumps(c)
         if used + len(txt) > total and out:
             break
         out.append(c)
@@ -409,8 +439,8 @@ class Ctx:
             os.makedirs(os.path.join(OUT, "replays"), exist_ok=True)
             rel = os.path.join("replays", "%s-%s.json" % (self.pid, key))
             with open(os.path.join(OUT, rel), "w") as f:
-                json.dump({"property": self.pid, "message": v["msg"], "key": v.get("key"),
-                           "case": v["case"]}, f, indent=1, default=str)
+                f.write(jdumps({"property": self.pid, "message": v["msg"], "key": v.get("key"),
+                                "case": v["case"]}, indent=1, default=str))
             replays.append((rel, v))
         cov = {
             "evaluations": st.evaluations,
@@ -433,7 +463,7 @@ class Ctx:
         }
         os.makedirs(os.path.join(OUT, "evidence"), exist_ok=True)
         with open(os.path.join(OUT, "evidence", self.pid + ".json"), "w") as f:
-            json.dump(ev, f, indent=1, default=str)
+            f.write(jdumps(ev, indent=1, default=str))
         for key, what in self.known_still_failing:
             print("KNOWN-FINDING: property=%s key=%s %s" % (self.pid, key, what))
         for rel, v in replays:
